@@ -1144,3 +1144,268 @@ pub fn walk_tags(data: &[u8]) -> Walked {
     }
     w.out
 }
+
+// ---------------------------------------------------------------------------------------------
+// growth potential of a GSUB table
+// ---------------------------------------------------------------------------------------------
+
+fn r16(d: &[u8], at: usize) -> Option<usize> {
+    d.get(at..at + 2).map(|b| u16::from_be_bytes([b[0], b[1]]) as usize)
+}
+fn r32(d: &[u8], at: usize) -> Option<usize> {
+    d.get(at..at + 4).map(|b| u32::from_be_bytes([b[0], b[1], b[2], b[3]]) as usize)
+}
+
+/// glyphs covered by a coverage table at `at` are marked in `set`
+fn mark_coverage(d: &[u8], at: usize, set: &mut [bool]) -> Option<()> {
+    match r16(d, at)? {
+        1 => {
+            let n = r16(d, at + 2)?;
+            for i in 0..n {
+                set[r16(d, at + 4 + 2 * i)?] = true;
+            }
+        }
+        2 => {
+            let n = r16(d, at + 2)?;
+            for i in 0..n {
+                let (a, b) = (r16(d, at + 4 + 6 * i)?, r16(d, at + 6 + 6 * i)?);
+                if a <= b {
+                    for g in a..=b {
+                        set[g] = true;
+                    }
+                }
+            }
+        }
+        _ => {}
+    }
+    Some(())
+}
+
+/// (lookup type, subtable start) of every subtable of lookup `li`, extension resolved
+fn subtables(d: &[u8], ll: usize, li: usize) -> Vec<(usize, usize)> {
+    let mut out = Vec::new();
+    let mut inner = || -> Option<()> {
+        if li >= r16(d, ll)? {
+            return None;
+        }
+        let l = ll + r16(d, ll + 2 + 2 * li)?;
+        let ty = r16(d, l)?;
+        let ns = r16(d, l + 4)?;
+        for s in 0..ns.min(64) {
+            let mut st = l + r16(d, l + 6 + 2 * s)?;
+            let mut ty = ty;
+            if ty == 7 {
+                ty = r16(d, st + 2)?;
+                st += r32(d, st + 4)?;
+            }
+            out.push((ty, st));
+        }
+        Some(())
+    };
+    inner();
+    out
+}
+
+/// Upper bound on the factor by which one application of lookup `li` multiplies the number of
+/// *growable* glyphs (glyphs some multiple substitution covers): for a multiple substitution the
+/// largest number of growable glyphs in one of its sequences; for contexts what the lookups they
+/// call add per position. Sequences that do not fit in the table count as 1 (they do not parse).
+fn lookup_growth(d: &[u8], ll: usize, li: usize, growable: &[bool], maxlen: &mut usize, memo: &mut std::collections::HashMap<usize, f64>, stack: &mut Vec<usize>) -> f64 {
+    if let Some(v) = memo.get(&li) {
+        return *v;
+    }
+    if stack.contains(&li) || stack.len() > 8 {
+        // cyclic / deep nesting: allsorts stops at its recursion limit
+        return 1.0;
+    }
+    stack.push(li);
+    let mut worst: f64 = 1.0;
+    for (ty, st) in subtables(d, ll, li) {
+        match ty {
+            2 => {
+                let count = r16(d, st + 4).unwrap_or(0);
+                for k in 0..count.min(4096) {
+                    let sq = match r16(d, st + 6 + 2 * k) {
+                        Some(o) => st + o,
+                        None => continue,
+                    };
+                    let c = match r16(d, sq) {
+                        Some(c) => c,
+                        None => continue,
+                    };
+                    if sq + 2 + 2 * c <= d.len() {
+                        *maxlen = (*maxlen).max(c);
+                        let g = (0..c).filter(|i| r16(d, sq + 2 + 2 * i).map_or(false, |g| growable[g])).count();
+                        worst = worst.max(g as f64);
+                    }
+                }
+            }
+            5 | 6 => {
+                let mut add = 0.0;
+                let mut recs: Vec<(usize, usize)> = Vec::new();
+                context_records(d, st, ty == 6, &mut recs);
+                for (_, lk) in recs.iter().take(4096) {
+                    add += lookup_growth(d, ll, *lk, growable, maxlen, memo, stack) - 1.0;
+                }
+                worst = worst.max(1.0 + add);
+            }
+            _ => {}
+        }
+    }
+    stack.pop();
+    memo.insert(li, worst);
+    worst
+}
+
+/// (sequence index, lookup index) records of a (chain) context subtable, all rules together
+fn context_records(d: &[u8], st: usize, chain: bool, out: &mut Vec<(usize, usize)>) -> Option<()> {
+    let fmt = r16(d, st)?;
+    let mut push = |at: usize, n: usize, out: &mut Vec<(usize, usize)>| {
+        for i in 0..n.min(64) {
+            if let (Some(a), Some(b)) = (r16(d, at + 4 * i), r16(d, at + 4 * i + 2)) {
+                out.push((a, b));
+            }
+        }
+    };
+    match fmt {
+        1 | 2 => {
+            let count_at = match (fmt, chain) {
+                (1, _) => st + 4,
+                (2, false) => st + 6,
+                _ => st + 10,
+            };
+            let nsets = r16(d, count_at)?;
+            for i in 0..nsets.min(256) {
+                let off = r16(d, count_at + 2 + 2 * i)?;
+                if off == 0 {
+                    continue;
+                }
+                let rs = st + off;
+                let nr = match r16(d, rs) {
+                    Some(n) => n,
+                    None => continue,
+                };
+                for j in 0..nr.min(64) {
+                    let r = match r16(d, rs + 2 + 2 * j) {
+                        Some(o) => rs + o,
+                        None => continue,
+                    };
+                    if !chain {
+                        if let (Some(g), Some(s)) = (r16(d, r), r16(d, r + 2)) {
+                            push(r + 4 + 2 * g.saturating_sub(1), s, out);
+                        }
+                    } else {
+                        let mut p = r;
+                        let b = match r16(d, p) {
+                            Some(b) => b,
+                            None => continue,
+                        };
+                        p += 2 + 2 * b;
+                        let g = match r16(d, p) {
+                            Some(g) => g,
+                            None => continue,
+                        };
+                        p += 2 + 2 * g.saturating_sub(1);
+                        let l = match r16(d, p) {
+                            Some(l) => l,
+                            None => continue,
+                        };
+                        p += 2 + 2 * l;
+                        if let Some(s) = r16(d, p) {
+                            push(p + 2, s, out);
+                        }
+                    }
+                }
+            }
+        }
+        3 => {
+            if !chain {
+                let g = r16(d, st + 2)?;
+                let s = r16(d, st + 4)?;
+                push(st + 6 + 2 * g, s, out);
+            } else {
+                let mut p = st + 2;
+                for _ in 0..3 {
+                    let n = r16(d, p)?;
+                    p += 2 + 2 * n;
+                }
+                let s = r16(d, p)?;
+                push(p + 2, s, out);
+            }
+        }
+        _ => {}
+    }
+    Some(())
+}
+
+/// Upper bound on the factor by which shaping with this GSUB table can grow a run, assuming every
+/// feature table (feature list and feature variation alternates) is applied once: the product over
+/// all lookup references of the factor by which the lookup multiplies the growable glyphs, times
+/// the longest sequence. Used to keep exponential growth out of the workload (allsorts does not
+/// limit the run length; that limitation is recorded, not judged).
+pub fn growth_potential(d: &[u8]) -> f64 {
+    let inner = || -> Option<f64> {
+        let fl = r16(d, 6)?;
+        let ll = r16(d, 8)?;
+        let nl = r16(d, ll)?;
+        let mut growable = vec![false; 65536];
+        for li in 0..nl.min(4096) {
+            for (ty, st) in subtables(d, ll, li) {
+                if ty == 2 {
+                    if let Some(c) = r16(d, st + 2) {
+                        mark_coverage(d, st + c, &mut growable);
+                    }
+                }
+            }
+        }
+        let mut feature_tables: Vec<usize> = Vec::new();
+        let nf = r16(d, fl)?;
+        for i in 0..nf.min(512) {
+            if let Some(o) = r16(d, fl + 2 + 6 * i + 4) {
+                feature_tables.push(fl + o);
+            }
+        }
+        if r16(d, 2)? >= 1 {
+            if let Some(fv) = r32(d, 10) {
+                if fv != 0 {
+                    let n = r32(d, fv + 4).unwrap_or(0);
+                    for i in 0..n.min(64) {
+                        if let Some(fts) = r32(d, fv + 8 + 8 * i + 4) {
+                            if fts == 0 {
+                                continue;
+                            }
+                            let fts = fv + fts;
+                            let m = r16(d, fts + 4).unwrap_or(0);
+                            for j in 0..m.min(64) {
+                                if let Some(o) = r32(d, fts + 6 + 6 * j + 2) {
+                                    feature_tables.push(fts + o);
+                                }
+                            }
+                        }
+                    }
+                }
+            }
+        }
+        let mut cache: std::collections::HashMap<usize, f64> = std::collections::HashMap::new();
+        let mut total: f64 = 1.0;
+        let mut maxlen = 1usize;
+        let mut stack: Vec<usize> = Vec::new();
+        for ft in feature_tables {
+            let n = match r16(d, ft + 2) {
+                Some(n) => n,
+                None => continue,
+            };
+            for k in 0..n.min(1024) {
+                if let Some(li) = r16(d, ft + 4 + 2 * k) {
+                    let g = lookup_growth(d, ll, li, &growable, &mut maxlen, &mut cache, &mut stack);
+                    total *= g;
+                    if total > 1e12 {
+                        return Some(total);
+                    }
+                }
+            }
+        }
+        Some(total * maxlen as f64)
+    };
+    inner().unwrap_or(1.0)
+}
